@@ -51,6 +51,11 @@ def cargo_env(rustflags=''):
 
 
 def _ensure_lock():
+    link = os.path.join(HARNESS, '.repo')
+    if not os.path.islink(link) or os.readlink(link) != REPO:
+        if os.path.islink(link) or os.path.exists(link):
+            os.remove(link)
+        os.symlink(REPO, link)
     lock = os.path.join(HARNESS, 'Cargo.lock')
     if not os.path.exists(lock):
         src = os.path.join(REPO, 'Cargo.lock')
